@@ -136,6 +136,7 @@ def ev_expr(e, env, conf):
     if k == 'eq': return ev_expr(e[1], env, conf) == ev_expr(e[2], env, conf)
     if k == 'lt': return ev_expr(e[1], env, conf) < ev_expr(e[2], env, conf)
     if k == 'not': return not ev_expr(e[1], env, conf)
+    if k == 'or': return bool(ev_expr(e[1], env, conf)) or bool(ev_expr(e[2], env, conf))
     raise ValueError(e)
 
 
@@ -150,12 +151,13 @@ def rn_expr(e, dm):
     if k == 'eq': return '%s == %s' % (rn_expr(e[1], dm), rn_expr(e[2], dm))
     if k == 'lt': return '%s < %s' % (rn_expr(e[1], dm), rn_expr(e[2], dm))
     if k == 'not': return ('not (%s)' if dm == 'lua' else '!(%s)') % rn_expr(e[1], dm)
+    if k == 'or': return ('%s or %s' if dm != 'promela' else '%s || %s') % (rn_expr(e[1], dm), rn_expr(e[2], dm))    # deliberately without parentheses around the whole
     raise ValueError(e)
 
 
 def expr_uses_data(e):
     if e is None: return False
-    if e[0] in ('var', 'const', 'add', 'sub', 'eq', 'lt', 'not', 'true'):
+    if e[0] in ('var', 'const', 'add', 'sub', 'eq', 'lt', 'not', 'true', 'or'):
         if e[0] in ('in',): return False
         if e[0] == 'not': return True   # the null datamodel only knows In()
         return True
@@ -196,7 +198,8 @@ def rn_actions(acts, dm, ind):
 def rn_data(items, dm, ind):
     L = ['%s<datamodel>' % ind]
     for k, v in items:
-        L.append('%s  <data id="%s" %sexpr="%d"/>' % (ind, k, 'type="int" ' if dm == 'promela' else '', v))
+        # a value may be an expression over data declared before it (document order = sorted by name)
+        L.append('%s  <data id="%s" %sexpr="%s"/>' % (ind, k, 'type="int" ' if dm == 'promela' else '', esc(rn_expr(v, dm)) if isinstance(v, tuple) else '%d' % v))
     L.append('%s</datamodel>' % ind)
     return L
 
@@ -328,11 +331,11 @@ EVENTS = ['e1', 'e2', 'e3', 'e1.a', 'zz']
 
 
 class Gen:
-    def __init__(g, rng, nstates=8, data=True, late=None, allow=None, avoid=(), errors=True):
+    def __init__(g, rng, nstates=8, data=True, late=None, allow=None, avoid=(), errors=True, dataexpr=True, orcond=True):
         g.rng = rng; g.nstates = nstates; g.data = data
         g.late = late if late is not None else (data and rng.random() < 0.2)
         g.avoid = set(avoid)      # feature triggers to avoid (known findings)
-        g.errors = errors
+        g.errors = errors; g.dataexpr = dataexpr; g.orcond = orcond
         g.lab = 0
 
     def L(g, prefix):
@@ -373,6 +376,10 @@ class Gen:
         proper = ch.proper()
         hists = [s for s in ch.doc if s.kind == 'history']
         vars_ = {'x': 0, 'y': 1, 'b': 0, 'c': 0} if g.data else {}
+        if g.data and g.dataexpr and rng.random() < 0.3:
+            # initialisers run in document order: yy is computed from x and y declared before it
+            vars_['x'] = rng.randint(0, 2)
+            vars_['yy'] = ('add', ('var', 'x'), ('add', ('var', 'y'), ('const', rng.randint(1, 3))))
         g.vars = vars_
 
         def legal_targets(k, src):
@@ -408,7 +415,11 @@ class Gen:
                     d = [q for q in proper if is_descendant(q, s)]
                     s.initial_attr = [rng.choice(d).id]
                 elif r < 0.6 and s.kind != 'scxml':
-                    s.initial_elem = ([rng.choice(s.states()).id], g.racts('I', proper))
+                    if rng.random() < 0.25 and 'initial-deep' not in g.avoid:
+                        # <initial> may target any descendant: the states in between are entered as its ancestors
+                        s.initial_elem = ([rng.choice([q for q in proper if is_descendant(q, s)]).id], g.racts('I', proper))
+                    else:
+                        s.initial_elem = ([rng.choice(s.states()).id], g.racts('I', proper))
                 elif r < 0.68 and 'initial-multi' not in g.avoid:
                     # several (deep) initial targets in different regions of a parallel below s
                     d = [q for q in proper if is_descendant(q, s)]
@@ -462,7 +473,7 @@ class Gen:
         rng = g.rng
         if not g.vars: return None
         return rng.choice([('var', 'x'), ('var', 'y'), ('add', ('var', 'x'), ('const', 1)), ('const', rng.randint(0, 3)),
-                           ('sub', ('const', 5), ('const', 3)), ('sub', ('var', 'y'), ('const', 2))])
+                           ('sub', ('const', 5), ('const', 3)), ('sub', ('var', 'y'), ('const', 2))] + ([('var', 'yy')] * 2 if 'yy' in g.vars else []))
 
     def rcond(g, proper):
         rng = g.rng
@@ -472,6 +483,8 @@ class Gen:
         elif r < 0.7: c = ('eq', ('var', rng.choice(['x', 'y'])), ('const', rng.randint(0, 2)))
         else: c = ('lt', ('var', rng.choice(['x', 'y'])), ('const', rng.randint(1, 3)))
         if rng.random() < 0.25 and g.vars: c = ('not', c)
+        if rng.random() < 0.12 and g.vars and g.orcond:
+            c = ('or', c, ('eq', ('var', rng.choice(['x', 'y'])), ('const', rng.randint(0, 2))))
         return c
 
     def budget(g, act):
@@ -546,6 +559,42 @@ def gen_done_chart(seed, logexpr=None):
     par.trans.append(Tr(par, ['done.state.P'], None, ['pass'], False, log('D')))
     ch = Chart(root)
     hist = [rng.choice(evs) for _ in range(rng.randint(3, 7))]
+    return ch, hist
+
+
+def gen_hist_chart(seed, logexpr=None):
+    """Documents about history: one compound state S with a (deep or shallow) history and two compound children with nested states;
+    the history walks the nested states, leaves S and comes back through the history several times, so that the store is re-recorded
+    with a different nested configuration each time."""
+    rng = random.Random(seed)
+    lab = [0]
+
+    def log(prefix):
+        lab[0] += 1; return [('log', '%s%d' % (prefix, lab[0]), logexpr)]
+    root = St('root', 'scxml')
+    S = St('S', 'state', root); root.children.append(S)
+    h = St('h', 'history', S, rng.choice(['deep', 'deep', 'shallow'])); S.children.append(h)
+    leaves = []
+    for name in ('A', 'B'):
+        c = St(name, 'state', S); S.children.append(c)
+        c.onentry.append(log('N'))
+        for i in (1, 2, 3)[:rng.randint(2, 3)]:
+            l = St('%s%d' % (name.lower(), i), 'state', c); c.children.append(l); leaves.append(l)
+            l.onentry.append(log('N'))
+    h.trans.append(Tr(h, None, None, [rng.choice(['A', 'B'] + [l.id for l in leaves]) if h.htype == 'deep' else rng.choice(['A', 'B'])], False, log('H')))
+    O = St('O', 'state', root); root.children.append(O)
+    O.onentry.append(log('N'))
+    for l in leaves:
+        l.trans.append(Tr(l, ['e1'], None, [rng.choice([q.id for q in leaves if q is not l])], False, log('T')))
+    S.trans.append(Tr(S, ['e2'], None, ['O'], False, log('T')))
+    O.trans.append(Tr(O, ['e3'], None, ['h'], False, log('T')))
+    O.trans.append(Tr(O, ['e2'], None, [rng.choice(['S', 'A', 'B'])], False, log('T')))
+    ch = Chart(root)
+    # walk, leave, come back through the history, walk on, leave, come back
+    hist = []
+    for _ in range(2):
+        hist += ['e1'] * rng.randint(0, 2) + ['e2', rng.choice(['e3', 'e3', 'e2'])]
+    hist = hist[:6] + (['e1'] if rng.random() < 0.5 else [])
     return ch, hist
 
 
